@@ -406,17 +406,30 @@ fn dechunk(mut b: &[u8]) -> Option<Vec<u8>> {
     let mut out = Vec::new();
     loop {
         let line_end = b.windows(2).position(|w| w == b"\r\n")?;
-        let size =
-            usize::from_str_radix(std::str::from_utf8(&b[..line_end]).ok()?.trim(), 16).ok()?;
+        let line = std::str::from_utf8(&b[..line_end]).ok()?;
+        // chunk-size [ ";" chunk-ext ]: the extension is ignored, but a bare
+        // CR or LF inside the size line is not framing we understand.
+        if line.bytes().any(|c| c == b'\r' || c == b'\n') {
+            return None;
+        }
+        let size_text = line.split(';').next()?.trim();
+        let size = usize::from_str_radix(size_text, 16).ok()?;
         b = &b[line_end + 2..];
         if size == 0 {
             return Some(out);
         }
-        if b.len() < size + 2 {
+        // A hostile size must not overflow the bound check.
+        let end = size.checked_add(2)?;
+        if b.len() < end {
+            return None;
+        }
+        // The chunk data is followed by CRLF; anything else means the size
+        // line lied about where the data ends.
+        if &b[size..end] != b"\r\n" {
             return None;
         }
         out.extend_from_slice(&b[..size]);
-        b = &b[size + 2..];
+        b = &b[end..];
     }
 }
 
